@@ -1,5 +1,6 @@
 import Netpol.Model.WorldParse
 import Netpol.Spec.K8s
+import Netpol.Spec.Ingress
 /-! Spec side of the search for a failing input (leg P of C01/C02/C05/C19): evaluates the pointwise
 specification on every pair of peers and every elementary port segment, and lists the conflicts
 present in the input. Independent of `Netpol.Model.Engine`. -/
@@ -152,7 +153,25 @@ def run (args : List Sexp) : Sexp :=
         else
           let c := connOf s.e d.e
           if c == "No Connections" then none else some (s.name ++ " " ++ d.name ++ " " ++ us c)
+      -- ingress-controller lines: an arbitrary unlabeled pod in a namespace unknown to the input
+      let icPod : Pod := { ns := "ingress-controller-ns", name := "ingress-controller", labels := [], ports := [], fake := true }
+      let ic : End := .pod icPod [(nsNameLabelKey, "ingress-controller-ns")]
+      let icRes := wls.filterMap fun w =>
+        match w.e with
+        | .pod p _ =>
+          let ports := ((ingressPorts objs p).mergeSort (· ≤ ·)).eraseDups
+          if !targeted objs p then none
+          else
+            let ok := ports.filter fun x => allowed v ic w.e .TCP x
+            some (w.name, ok)
+        | _ => none
+      let icLines := icRes.filterMap fun (n, ok) =>
+        if ok.isEmpty then none
+        else some ("{ingress-controller} " ++ n ++ " " ++ us (connStr [(Proto.TCP, ok.foldl (fun acc x => CSet.addIv ⟨x, x⟩ acc) [])]))
+      let blockedL := icRes.filterMap fun (n, ok) => if ok.isEmpty then some n else none
+      let lines := lines ++ icLines
       .list ([.atom "wspec", id,
+        .list (.atom "blocked" :: (sortStrs blockedL).map .atom),
         .list (.atom "conflicts" :: (conflicts objs).map .atom),
         .list [.atom "named-port-may-meet-ip", .atom (if namedPortMayMeetIP objs then "1" else "0")],
         .list (.atom "nonuniform" :: nonuni.map fun (lo, hi) => .atom (ipStr lo ++ "-" ++ ipStr hi)),
